@@ -73,7 +73,25 @@ impl lang::Navigate for Tokenizer
 				if tok.kind()=="tok_data" {
 					let items: String = String::from(&self.line[std::ops::Range {start: tok.end_byte(),end: curs.node().end_byte()}]);
 					self.tokenized_line.push(*self.tok_map.get("tok_data").unwrap());
-					self.tokenized_line.append(&mut Self::checked_stringlike(&items,false)?);
+					let mut bytes = Self::checked_stringlike(&items,false)?;
+					// a colon outside of quotes that is in the bytes but not in the text comes from an escape
+					let open_colons = |it: &mut dyn Iterator<Item=u8>| -> usize {
+						let mut quotes = 0;
+						let mut ans = 0;
+						for b in it {
+							if b==34 {
+								quotes += 1;
+							} else if b==58 && quotes%2==0 {
+								ans += 1;
+							}
+						}
+						ans
+					};
+					if open_colons(&mut bytes.iter().copied()) > open_colons(&mut items.bytes()) {
+						error!("escape produces a colon that would end the DATA statement");
+						return Err(Box::new(lang::Error::Tokenization));
+					}
+					self.tokenized_line.append(&mut bytes);
 					return Ok(lang::Navigation::GotoSibling);
 				}
 			}
